@@ -216,6 +216,16 @@ type ivCase struct {
 	ptr  func() interface{}
 	val  func() interface{}
 	also []func() interface{} // types reached from it that must be rejected as well, after it was
+	sib  func()               // valid types sharing nested structs with it: must keep working (nil: only the unrelated Leaf)
+}
+
+func ivSib(c ivCase, f func()) ivCase { c.sib = f; return c }
+
+func (c ivCase) sibling() {
+	siblingOK(ops_Leaf)
+	if c.sib != nil {
+		c.sib()
+	}
 }
 
 func ivAlso(c ivCase, f ...func() interface{}) ivCase { c.also = f; return c }
@@ -246,6 +256,12 @@ var ivCases = []ivCase{
 	ivAlso(ivc[IvCycB]("mutual-recursion-by-value-reaching-invalid-member"), func() interface{} { return new(IvCycA) }),
 	ivAlso(ivc[IvCycPA]("mutual-recursion-by-pointer-with-invalid-member"), func() interface{} { return &IvCycPB{A: &IvCycPA{Bad: &IvUint{}}} }),
 	ivAlso(ivc[IvCycPB]("mutual-recursion-by-pointer-reaching-invalid-member"), func() interface{} { return new(IvCycPA) }),
+	// the failing type nests a VALID struct in one flavour (by value / by pointer) before its invalid member, while a valid
+	// sibling type uses the same struct in the other flavour: rolling the failed registration back must not take the
+	// sibling's descriptors with it
+	ivSib(ivc[IvShXV]("valid-nested-by-value-next-to-invalid"), func() { ivShared(true) }),
+	ivSib(ivc[IvShXP]("valid-nested-by-pointer-next-to-invalid"), func() { ivShared(false) }),
+	ivSib(ivc[IvShXL]("valid-nested-in-list-next-to-invalid"), func() { ivShared(true); ivShared(false) }),
 }
 
 // arguments that are not a (pointer to a) struct
@@ -323,20 +339,20 @@ func VerifInvalidDef() {
 	switch vrt.Choice("order", 3) {
 	case 0:
 		ivRejected(p, v, c.name)
-		siblingOK(ops_Leaf)
+		c.sibling()
 		ivRejected(p, v, c.name) // the same on every call
 	case 1:
-		siblingOK(ops_Leaf)
+		c.sibling()
 		ivRejected(p, v, c.name)
 		ivRejected(p, v, c.name)
-		siblingOK(ops_Leaf)
+		c.sibling()
 	case 2:
 		// DecodeObject is the first entry point to see the type
 		in := []byte{0}
 		n, err := DecodeObject(in, p)
 		vrt.Check(err != nil && n == 0, "C13 DecodeObject returns an error for an unsupported definition/argument")
 		ivRejected(p, v, c.name)
-		siblingOK(ops_Leaf)
+		c.sibling()
 	}
 }
 
@@ -369,3 +385,65 @@ type (
 		A []IvPtrBinEl `frugal:"1,default,list<IvPtrBinEl>"`
 	}
 )
+
+type (
+	IvShN struct {
+		A int32 `frugal:"1,default,i32"`
+	}
+	IvShTP struct {
+		P *IvShN   `frugal:"1,optional,IvShN"`
+		L []*IvShN `frugal:"2,default,list<IvShN>"`
+	}
+	IvShTV struct {
+		V IvShN   `frugal:"1,default,IvShN"`
+		L []IvShN `frugal:"2,default,list<IvShN>"`
+	}
+	IvShXV struct {
+		V IvShN   `frugal:"1,default,IvShN"`
+		B *IvUint `frugal:"2,optional,IvUint"`
+	}
+	IvShXP struct {
+		P *IvShN  `frugal:"1,optional,IvShN"`
+		B *IvUint `frugal:"2,optional,IvUint"`
+	}
+	IvShXL struct {
+		L  []IvShN  `frugal:"1,default,list<IvShN>"`
+		LP []*IvShN `frugal:"2,default,list<IvShN>"`
+		B  []IvUint `frugal:"3,default,list<IvUint>"`
+	}
+)
+
+// ivShared: round trip of a valid type that uses IvShN through pointers only (ptr) or by value only, against
+// independently written expected bytes.
+func ivShared(ptr bool) {
+	vrt.SetOwner("user")
+	a, b := int32(vrt.U32("sh.a")), int32(vrt.U32("sh.b"))
+	be := func(o []byte, v int32) []byte {
+		return append(o, byte(uint32(v)>>24), byte(uint32(v)>>16), byte(uint32(v)>>8), byte(uint32(v)))
+	}
+	exp := be([]byte{12, 0, 1, 8, 0, 1}, a)
+	exp = append(exp, 0, 15, 0, 2, 12, 0, 0, 0, 1, 8, 0, 1)
+	exp = append(be(exp, b), 0, 0)
+	var v, out interface{}
+	if ptr {
+		v, out = &IvShTP{P: &IvShN{A: a}, L: []*IvShN{{A: b}}}, &IvShTP{}
+	} else {
+		v, out = &IvShTV{V: IvShN{A: a}, L: []IvShN{{A: b}}}, &IvShTV{}
+	}
+	vrt.SetOwner("impl")
+	vrt.Phase("sibling")
+	vrt.Check(EncodedSize(v) == len(exp), "C07 a valid type sharing a nested struct with a rejected type keeps its size")
+	buf := make([]byte, len(exp))
+	n, err := EncodeObject(buf, nil, v)
+	vrt.Check(err == nil && n == len(exp) && vrt.BytesEq(buf, exp), "C07 a valid type sharing a nested struct with a rejected type keeps encoding")
+	n, err = DecodeObject(exp, out)
+	vrt.Check(err == nil && n == len(exp), "C07 a valid type sharing a nested struct with a rejected type keeps decoding")
+	if ptr {
+		o := out.(*IvShTP)
+		vrt.Check(o.P != nil && o.P.A == a && len(o.L) == 1 && o.L[0] != nil && o.L[0].A == b, "C07 a valid type sharing a nested struct with a rejected type decodes the transmitted value")
+	} else {
+		o := out.(*IvShTV)
+		vrt.Check(o.V.A == a && len(o.L) == 1 && o.L[0].A == b, "C07 a valid type sharing a nested struct with a rejected type decodes the transmitted value")
+	}
+	vrt.Phase("")
+}
